@@ -589,7 +589,15 @@ fn line_dump(dwarf: &gimli::Dwarf<Rd<'static>>, unit: Option<&gimli::Unit<Rd<'st
         Some(u) => str_bytes(dwarf.attr_string(u, a)),
         None => str_bytes(dwarf.attr_line_string(a)),
     };
-    let dirs: Vec<J> = h.include_directories().iter().map(|d| s(d.clone())).collect();
+    // every directory a file entry can name: for version <= 4 directory 0 is the
+    // compilation directory, which is not part of include_directories()
+    let mut dirs: Vec<J> = Vec::new();
+    if h.version() <= 4 {
+        if let Some(d) = h.directory(0) {
+            dirs.push(s(d));
+        }
+    }
+    dirs.extend(h.include_directories().iter().map(|d| s(d.clone())));
     let files: Vec<J> = h
         .file_names()
         .iter()
@@ -747,7 +755,7 @@ fn ca(a: u64) -> Option<Address> {
 
 /// The stepwise convert API used the way its documentation shows; `seed` chooses
 /// between read_row and read_sequence for each line program.
-fn convert_stepwise(from: &gimli::Dwarf<Rd<'static>>, seed: u64) -> Result<write::Dwarf, write::ConvertError> {
+fn convert_stepwise(from: &gimli::Dwarf<Rd<'static>>, seed: u64, at: &mut String) -> Result<write::Dwarf, write::ConvertError> {
     let mut rng = Rng::new(seed);
     let mut dwarf = write::Dwarf::new();
     {
@@ -794,6 +802,7 @@ fn convert_stepwise(from: &gimli::Dwarf<Rd<'static>>, seed: u64) -> Result<write
                 if attr.name() == c::DW_AT_GNU_locviews {
                     continue;
                 }
+                *at = format!("attr 0x{:x} form 0x{:x} of a root entry", attr.name().0, attr.form().0);
                 let value = unit.convert_attribute_value(root_entry.read_unit, attr, &ca)?;
                 unit.unit.get_mut(root_id).set(attr.name(), value);
             }
@@ -807,6 +816,7 @@ fn convert_stepwise(from: &gimli::Dwarf<Rd<'static>>, seed: u64) -> Result<write
                     if attr.name() == c::DW_AT_GNU_locviews {
                         continue;
                     }
+                    *at = format!("attr 0x{:x} form 0x{:x} of an entry with tag 0x{:x}", attr.name().0, attr.form().0, entry.tag.0);
                     let value = unit.convert_attribute_value(entry.read_unit, attr, &ca)?;
                     unit.unit.get_mut(id).set(attr.name(), value);
                 }
@@ -817,12 +827,13 @@ fn convert_stepwise(from: &gimli::Dwarf<Rd<'static>>, seed: u64) -> Result<write
 }
 
 fn convert_write(from: &gimli::Dwarf<Rd<'static>>, api: &str, seed: u64, endian: RunTimeEndian) -> Result<Secs, (String, String)> {
+    let mut at = String::new();
     let mut w = if api == "stepwise" {
-        convert_stepwise(from, seed)
+        convert_stepwise(from, seed, &mut at)
     } else {
         write::Dwarf::from(from, &ca)
     }
-    .map_err(|e| ("convert".to_string(), format!("{:?}", e)))?;
+    .map_err(|e| ("convert".to_string(), format!("{:?} {}", e, at).trim().to_string()))?;
     let mut sections = write::Sections::new(EndianVec::new(endian));
     w.write(&mut sections).map_err(|e| ("write".to_string(), format!("{:?}", e)))?;
     Ok(sections_of(&sections))
